@@ -114,6 +114,11 @@ func cmdFunc(args []string) {
 			}
 		}
 		fmt.Printf("== %s: %d/%d discharged (gen %.2fs, solve %.2fs)\n", k, nd, len(res.Obls), gen, time.Since(t2).Seconds())
+		for _, n := range res.Notes {
+			if strings.Contains(n, "cannot be evaluated") {
+				fmt.Printf("   NOTE       %s\n", n)
+			}
+		}
 		for _, o := range res.Obls {
 			if o.Status != "discharged" || *keep {
 				fmt.Printf("   %-10s %-8s %6.2fs %s  [%s] %s\n", o.Status, o.Solver, o.Seconds, o.Name, o.Pos, o.Output)
